@@ -66,6 +66,12 @@ class _IfNormaliser(ast.NodeTransformer):
             node.test = t.operand
             node.body, node.orelse = node.orelse, node.body
             self.count += 1
+        if node.orelse and all(isinstance(s_, ast.Pass) for s_ in node.body):
+            # `if c: pass else: B`  ==>  `if not c: B`
+            from .normalise import negate
+            node.test = negate(node.test)
+            node.body, node.orelse = node.orelse, []
+            self.count += 1
         return node
 
     _MIRROR = {ast.Lt: ast.Gt, ast.Gt: ast.Lt, ast.LtE: ast.GtE, ast.GtE: ast.LtE, ast.Eq: ast.Eq, ast.NotEq: ast.NotEq,
@@ -305,25 +311,29 @@ class Module:
         tree = ast.parse(self.src, filename=path)
         rw = _DoRewriter()
         self.tree = rw.visit(tree)
+        self.do_rewrites = rw.count
+        self.imports = {}     # local name -> dotted target
+
+    def normalise(self):
+        """second half of loading (after the cross-module pass of Repo._load): per-module normalisations, parents, imports"""
         from .normalise import inline_single_use_helpers, swap_negated_returns, filtered_loops_to_if, guard_continue_to_if, substitute_stable_locals
         from .normalise import helpers_to_closures
         self.nested_helpers = helpers_to_closures(self.tree)
         self.inlined_helpers = inline_single_use_helpers(self.tree)
         from .normalise import inline_helpers_v2
         self.inlined_helpers += inline_helpers_v2(self.tree)
-        from .normalise import eliminate_copies
+        from .normalise import eliminate_copies, void_early_returns
         eliminate_copies(self.tree)
+        void_early_returns(self.tree)
         filtered_loops_to_if(self.tree)
         guard_continue_to_if(self.tree)
         substitute_stable_locals(self.tree)
         swap_negated_returns(self.tree)
         self.tree = _IfNormaliser().visit(self.tree)
         ast.fix_missing_locations(self.tree)
-        self.do_rewrites = rw.count
         set_parents(self.tree)
         for n in ast.walk(self.tree):
             n.srcmod = self
-        self.imports = {}     # local name -> dotted target
         self._collect_imports()
 
     def _collect_imports(self):
@@ -466,7 +476,7 @@ class Func:
                     d.setdefault(n.target.id, []).append((n.value, n))
                 elif isinstance(n, ast.For):
                     for nm, _ in _bind_targets(n.target, None):
-                        d.setdefault(nm, []).append((ForElem(n), n))
+                        d.setdefault(nm, []).append((ForElem(n, nm), n))
                 elif isinstance(n, (ast.FunctionDef,)):
                     d.setdefault(n.name, []).append((n, n))
                 elif isinstance(n, ast.ExceptHandler) and n.name:
@@ -487,8 +497,9 @@ class Func:
 
 class ForElem:
     """marker: 'an element of the iterable of this For statement'"""
-    def __init__(self, for_node):
+    def __init__(self, for_node, name=None):
         self.for_node = for_node
+        self.name = name
 
 
 class TupleElem:
@@ -543,6 +554,10 @@ class Repo:
                 self.modules[name] = Module(name, p, rel)
             except SyntaxError as e:
                 raise AnalysisError('cannot parse %s: %s' % (rel, e))
+        from .normalise import inline_inherited_helpers
+        self.inherited_inlined = inline_inherited_helpers({n_: m_.tree for n_, m_ in self.modules.items()})
+        for m_ in self.modules.values():
+            m_.normalise()
 
     def _index(self):
         for m in self.modules.values():
